@@ -4,7 +4,7 @@ import itertools
 
 import numpy as np
 
-from .. import gen, core
+from .. import gen, core, probe
 from ..dense import dense, close
 from ..drive import call, expect_refusal
 from ..shard import Workload
@@ -19,6 +19,7 @@ MODES = ['last-first', 'last-last', 'first-last', 'first-first']
 def setup(ctx):
     global tt
     tt = arm_tt(ctx)
+    gen.LAYOUT = 0.15
     gen.ALIAS = 0.12
     gen.PROV = 0.25  # a quarter of the generated operands come with a history of library operations (gen.provenance)
 
@@ -52,6 +53,16 @@ def w_tensordot(ctx, rng, idx, param):
     b = gen.rand_tt(rng, r2, c2, gen.rand_ranks(rng, d2, 3), cb)
     ctx.describe({'op': 'tensordot', 'mode': mode, 'd1': d1, 'd2': d2, 'k': k, 'overwrite': ow, 'a': [r1, c1, a.ranks], 'b': [r2, c2, b.ranks]})
     call('TT.tensordot', lambda: a.tensordot(b, k, mode=mode, overwrite=ow), prop=P, tags=['mode=' + mode])
+    if idx % 4 == 0:
+        # a train contracted with itself (both operands are one object), with and without overwriting it
+        kk = int(rng.integers(1, d1 + 1))
+        sa = slice(d1 - kk, d1) if mode.startswith('last') else slice(0, kk)
+        sb = slice(d1 - kk, d1) if mode.endswith('last') else slice(0, kk)
+        if r1[sa] == r1[sb] and c1[sa] == c1[sb]:
+            for ow2 in (False, True):
+                with probe.oracle():
+                    t = tt.TT(gen.clone_cores(a.cores))
+                call('TT.tensordot', lambda: t.tensordot(t, kk, mode=mode, overwrite=ow2), prop=P, tags=['mode=' + mode, 'self_with_self'])
     if idx < 3:
         ctx.sample({'workload': 'tensordot', 'mode': mode, 'num_axes': k, 'overwrite': ow, 'self': {'row': r1, 'col': c1, 'ranks': a.ranks},
                     'other': {'row': r2, 'col': c2, 'ranks': b.ranks}})
@@ -217,14 +228,16 @@ def w_build_core(ctx, rng, idx):
     kind = ['real', 'complex', 'mixed'][int(rng.integers(0, 3))]
     nested = bool(rng.integers(0, 2))
     vector_blocks = (not nested) and rng.random() < 0.3
+    narrow = rng.random() < 0.25
 
     def block(i, j):
         if rng.random() < 0.3:
             return 0
         cplx = kind == 'complex' or (kind == 'mixed' and rng.random() < 0.5)
-        if vector_blocks:
-            return gen.randn(rng, (m,), cplx)
-        return gen.randn(rng, (m, n), cplx)
+        x = gen.randn(rng, (m,), cplx) if vector_blocks else gen.randn(rng, (m, n), cplx)
+        if narrow and rng.random() < 0.5:  # blocks of other precisions / integer blocks (complex64 is complex data, too)
+            x = x.astype(np.complex64) if cplx else (x.astype(np.float32) if rng.random() < 0.5 else np.round(3 * x).astype(int))
+        return x
     if nested:
         lst = [[block(i, j) for j in range(r2)] for i in range(r1)]
         if not any(isinstance(x, np.ndarray) for row in lst for x in row):
